@@ -814,3 +814,119 @@ Definition obj_flat (case : Z * Z * list Z * list (Z * Z * Z * Z * list Z)) : li
   let '(ro, reuse, data, ops) := case in
   flat_map enc_oout
     (snd (orun data (negb (ro =? 0)) (negb (reuse =? 0)) o_init (map dec_oop ops))).
+
+(* ====================================================================== *)
+(* Part G: util.obj2bytes / hashobj (ancillary-feature hashes, hierarchy   *)
+(* parent hashes, polygon-filter hashes, basin keys)                       *)
+(* ====================================================================== *)
+Inductive pobj :=
+| PStr (b : bytes)                 (* str / Path: utf-8 *)
+| PNum (repr : bytes)              (* bool, numbers: str(obj) *)
+| PNone                            (* b"none" *)
+| PArr (dt sh data : bytes)        (* ndarray: obj.tobytes() *)
+| PSeq (l : list pobj).            (* list / tuple / sorted dict items: joined *)
+
+Definition t_none : bytes := [110; 111; 110; 101].
+
+Fixpoint obj2bytes (o : pobj) : bytes :=
+  match o with
+  | PStr b => b
+  | PNum r => r
+  | PNone => t_none
+  | PArr _ _ d => d
+  | PSeq l => flat_map obj2bytes l
+  end.
+
+(* the layout of a value: nesting, kinds of the leaves, dtype and shape of
+   arrays, byte lengths of the leaves -- everything except the leaf bytes *)
+Inductive lay :=
+| LStr (n : nat) | LNum (n : nat) | LNone
+| LArr (dt sh : bytes) (n : nat)
+| LSeq (l : list lay).
+
+Fixpoint layout (o : pobj) : lay :=
+  match o with
+  | PStr b => LStr (length b)
+  | PNum r => LNum (length r)
+  | PNone => LNone
+  | PArr dt sh d => LArr dt sh (length d)
+  | PSeq l => LSeq (map layout l)
+  end.
+
+(* AncillaryFeature.hash: hasher.update(obj2bytes(x)) for the required
+   features, the "sec:key=val" strings and the requirement-function value:
+   md5 of the concatenation, i.e. of obj2bytes (PSeq items) *)
+Definition anc_key (items : list pobj) : bytes := obj2bytes (PSeq items).
+
+(* LazyContourList.identifier: unrepaired = the bytes of the first mask only;
+   repaired = all masks (ndarray) / the identifier of the file-based masks *)
+Definition lcl_ident_old (masks : list bytes) : bytes := hd [] masks.
+Definition lcl_ident_new (masks : list bytes) : pobj := PArr [] [] (concat masks).
+
+(* RTDCBase._ancillaries[feat] = (hash, data): one entry per feature; the
+   cached data are used when the hash equals the stored one. This is the
+   memo table of part B with capacity 1. *)
+
+(* --- per-object ufunc caches (H5ScalarEvent / ChildScalar._ufunc_attrs) --- *)
+Section Ufunc.
+  Variable D W : Type.
+  Variable ufunc : Z -> D -> W.        (* 0 max, 1 mean, 2 min applied to the data *)
+
+  (* the feature object of a hierarchy child: created on first access after
+     a refresh, keeps _array and _ufunc_attrs for its lifetime *)
+  Record ustate := {
+    u_parent : D;                      (* what the parent currently passes on *)
+    u_obj : option (D * list (Z * W))  (* child._events[feat]: (_array, _ufunc_attrs) *)
+  }.
+
+  Inductive uop :=
+  | UParent (d : D)                    (* parent filter / temporary feature changes *)
+  | URejuvenate                        (* child.rejuvenate(): _events.clear() *)
+  | UAttr (k : Z).                     (* child[feat].max() / .mean() / .min() *)
+
+  Fixpoint attr_get (k : Z) (l : list (Z * W)) : option W :=
+    match l with
+    | [] => None
+    | (k', w) :: l' => if k =? k' then Some w else attr_get k l'
+    end.
+
+  Definition ustep (s : ustate) (o : uop) : ustate * option W :=
+    match o with
+    | UParent d => ({| u_parent := d; u_obj := u_obj s |}, None)
+    | URejuvenate => ({| u_parent := u_parent s; u_obj := None |}, None)
+    | UAttr k =>
+        let '(arr, attrs) := match u_obj s with
+                             | Some x => x
+                             | None => (u_parent s, [])
+                             end in
+        match attr_get k attrs with
+        | Some w => ({| u_parent := u_parent s; u_obj := Some (arr, attrs) |}, Some w)
+        | None => let w := ufunc k arr in
+                  ({| u_parent := u_parent s; u_obj := Some (arr, (k, w) :: attrs) |}, Some w)
+        end
+    end.
+
+  Fixpoint urun (s : ustate) (ops : list uop) : list (option W) :=
+    match ops with
+    | [] => []
+    | o :: ops' => let '(s1, r) := ustep s o in r :: urun s1 ops'
+    end.
+
+  (* specification: the ufunc of the data passed on at the last rejuvenate
+     (or at first access) *)
+  Fixpoint uspec (parent : D) (seen : option D) (ops : list uop) : list (option W) :=
+    match ops with
+    | [] => []
+    | UParent d :: r => None :: uspec d seen r
+    | URejuvenate :: r => None :: uspec parent None r
+    | UAttr k :: r =>
+        let d := match seen with Some d => d | None => parent end in
+        Some (ufunc k d) :: uspec parent (Some d) r
+    end.
+End Ufunc.
+
+Arguments u_parent {D W} _.
+Arguments u_obj {D W} _.
+Arguments UParent {D} d.
+Arguments URejuvenate {D}.
+Arguments UAttr {D} k.
